@@ -54,6 +54,16 @@ def check(ctx):
             ok_bind = all(binding[k] is not None for k in binding) and outs.get(2) == want_out[2] and \
                 outs.get(4) == want_out[4] and fld(pt, 'channel_') == ce['args'][0]
             arg_nodes = ce.get('argnodes') or []
+            # one map OBJECT serves both steps of the protocol: the coordinate call is made on the very
+            # object the point refers to for its density call (a copy would not share cached state)
+            if ce.get('functor_lv') is not None and binding['map_'] is not None and ce['functor_lv'] == binding['map_']:
+                ctx.holds('R1.same_map_object', where, 'coordinates and densities are requested from the same '
+                          'map object (the integrand\'s)')
+            else:
+                ctx.violation('R1.same_map_object', where, 'the coordinate call is made on a different map object '
+                              'than the one the point uses for its density call (e.g. a copy): a map that carries '
+                              'state from the first step to the second returns densities that do not belong to '
+                              'the point', {'coordinate_call_on': str(ce.get('functor_lv')), 'point_refers_to': str(binding['map_'])})
             if ok_bind:
                 ctx.holds('R1.same_objects', where, 'the point refers to the coordinate and density buffers '
                           'the map just filled and carries the channel the map was called with')
@@ -201,3 +211,7 @@ def check(ctx):
     share(ctx, 'C02', 'R5/C02.', ['R1.once', 'R2.integrand_once'])
     share(ctx, 'C07', 'R4/C07.', ['R1.'])
     share(ctx, 'C09', 'R3/C09.', ['R1.', 'R2.', 'R4.'])
+    # the numbers handed to the integrand / the map are generate_canonical<T, digits of T, Engine>
+    # itself: drawn in a wider type and narrowed they can round to exactly 1 (shared with C10)
+    share(ctx, 'C10', 'R6/C10.', ['R1.template_args'])
+
